@@ -2,12 +2,15 @@
 
 Tie: (1) real dagrt.data.unify on the complete finite universe (None, Boolean, Integer,
 Scalar x2, Array x2, UserType x3): all pairs and all triples, vs coq/model/Unify.v;
-(2) real dagrt.data.SymbolKindFinder on generated small programs under all permutations
-of <= 5 statements and several PYTHONHASHSEEDs (subprocesses), vs coq/model/KindInfer.v
-(run_queue evaluated with vm_compute).
+(2) real dagrt.data.SymbolKindFinder on generated small programs (Assign and
+AssignFunctionCall statements, calls of every built-in and of registered user functions, also
+nested in expressions) under all permutations of <= 5 statements and several PYTHONHASHSEEDs
+(subprocesses), vs coq/model/KindInfer.v (run_queue evaluated with vm_compute);
+(3) real dagrt.data.infer_kinds on DAGCode objects whose phases dict is built in every insertion
+order, with the statements of each phase in permuted orders, vs KindInfer.infer_kinds.
 Oracle (independent of the model): idempotence / commutativity / associativity decided on
-the real results; the outcomes of one program under all orders and seeds must agree
-(both fail, or equal tables).
+the real results; the outcomes of one program under all orders of statements, all orders of
+phases and all seeds must agree (both fail, or equal tables).
 """
 import contextlib
 import io
@@ -67,8 +70,16 @@ def kind_from_real(k):
 
 # frequent strings are bound once in the header of the Coq case files (string literals are
 # slow to elaborate); everything else is written as a literal
-KNOWN_STRINGS = {"p": "s_p", "q": "s_q", "a": "s_a", "b": "s_b", "c": "s_c", "i": "s_i", "j": "s_j",
-                 "zz": "s_zz", "<t>": "s_t", "<state>y": "s_y", "u": "s_u", "v": "s_v"}
+KNOWN_STRINGS = {"p": "s_p", "q": "s_q", "r": "s_r", "a": "s_a", "b": "s_b", "c": "s_c", "d": "s_d",
+                 "i": "s_i", "j": "s_j", "zz": "s_zz", "<t>": "s_t", "<dt>": "s_dt", "<state>y": "s_y",
+                 "u": "s_u", "v": "s_v", "x": "s_x", "y": "s_yy",
+                 "<builtin>norm_1": "f_n1", "<builtin>norm_2": "f_n2", "<builtin>norm_inf": "f_ni",
+                 "<builtin>elementwise_abs": "f_abs", "<builtin>dot_product": "f_dot",
+                 "<builtin>len": "f_len", "<builtin>isnan": "f_nan", "<builtin>array": "f_arr",
+                 "<builtin>matmul": "f_mm", "<builtin>transpose": "f_tr",
+                 "<builtin>linear_solve": "f_ls", "<builtin>svd": "f_svd", "<builtin>print": "f_pr",
+                 "<func>f": "f_f", "<func>g": "f_g", "<func>h": "f_h", "<func>nope": "f_no", "w": "s_w",
+                 "a_cols": "s_ac", "b_cols": "s_bc"}
 
 
 def coq_lit(s):
@@ -94,7 +105,7 @@ def kind_to_coq(s):
     return "(Some (KUser %s))" % coq_str(arg)
 
 
-ERRS = {"ValueError", "AssertionError", "TypeError", "RuntimeError", "UnableToInferKind"}
+ERRS = {"ValueError", "AssertionError", "TypeError", "RuntimeError", "UnableToInferKind", "FunctionNotFound"}
 
 
 def res_to_coq(r):
@@ -128,13 +139,71 @@ def real_unify2(a, b, c, left):
     return real_unify(a, r[1]) if r[0] == "ok" else r
 
 
+# ------------------------------------------------------------------ the function registry of the runs
+
+# built-ins whose result (or whether there is one) depends on the kind of an argument
+SENSITIVE = ("<builtin>elementwise_abs", "<builtin>matmul", "<builtin>transpose", "<builtin>linear_solve",
+             "<builtin>svd")
+# index of the matrix arguments after resolve_args
+MATRIX = {"<builtin>matmul": (0, 1), "<builtin>transpose": (0,), "<builtin>linear_solve": (0, 1),
+          "<builtin>svd": (0,)}
+
+# the model's description of what test_registry() registers on top of the base registry
+TEST_REG_COQ = ("[(f_f, rhs_sig s_u [s_u]); (f_h, rhs_sig s_v [s_w]); "
+                "(f_g, fixed_sig [s_x] 2 [KScalar false; KArray true])]")
+
+
+def test_registry():
+    """base_function_registry + two ODE right-hand sides <func>f(t, u) -> UserType(u) and
+    <func>h(t, w) -> UserType(v) + a function <func>g(x) with two results of fixed kinds (complex
+    scalar, real array)."""
+    from dagrt.data import Array, Scalar
+    from dagrt.function_registry import base_function_registry, register_function, register_ode_rhs
+    reg = register_ode_rhs(base_function_registry, "u", identifier="<func>f")
+    reg = register_ode_rhs(reg, "v", identifier="<func>h", input_type_ids=("u",), input_names=("w",))
+    reg = register_function(reg, "<func>g", ("x",), result_names=("r1", "r2"),
+                            result_kinds=(Scalar(False), Array(True)))
+    return reg
+
+
+class _ArraysOnly:
+    """Emulation of fixes/C14_matrix_builtins_need_arrays.patch for the diagnosis of a failing
+    program: the function is unable to infer unless its matrix arguments are arrays."""
+
+    def __init__(self, f, idx):
+        self._f = f
+        self._idx = idx
+
+    def __getattr__(self, n):
+        return getattr(self._f, n)
+
+    def get_result_kinds(self, arg_kinds, check):
+        from dagrt.data import Array, UnableToInferKind
+        args = self._f.resolve_args(arg_kinds)
+        if not all(isinstance(args[i], Array) for i in self._idx):
+            raise UnableToInferKind("needs array arguments")
+        return self._f.get_result_kinds(arg_kinds, check)
+
+
+class _RegProxy:
+    def __init__(self, reg):
+        self._reg = reg
+
+    def __getitem__(self, fid):
+        f = self._reg[fid]
+        return _ArraysOnly(f, MATRIX[fid]) if fid in MATRIX else f
+
+    def __contains__(self, fid):
+        return fid in self._reg
+
+
 # ------------------------------------------------------------------ expressions / programs
 
 def e_to_real(e):
     from pymbolic import primitives as p
     t = e[0]
     if t == "num":
-        return {"0": 0, "1": 1, "2": 2, "1j": 1j, "2.5": 2.5}[e[1]]
+        return {"0": 0, "1": 1, "2": 2, "3": 3, "1j": 1j, "2.5": 2.5}[e[1]]
     if t == "var":
         return p.Variable(e[1])
     if t == "sum":
@@ -145,6 +214,11 @@ def e_to_real(e):
         return p.Quotient(e_to_real(e[1]), e_to_real(e[2]))
     if t == "cmp":
         return p.Comparison(e_to_real(e[1]), ">", e_to_real(e[2]))
+    if t == "call":
+        args = tuple(e_to_real(c) for c in e[2])
+        if e[3]:
+            return p.CallWithKwargs(p.Variable(e[1]), args, {k: e_to_real(v) for k, v in e[3]})
+        return p.Call(p.Variable(e[1]), args)
     raise ValueError(e)
 
 
@@ -164,6 +238,11 @@ def e_from_real(x):
         return ["quot", e_from_real(x.numerator), e_from_real(x.denominator)]
     if isinstance(x, p.Comparison):
         return ["cmp", e_from_real(x.left), e_from_real(x.right)]
+    if isinstance(x, p.CallWithKwargs):
+        return ["call", x.function.name, [e_from_real(c) for c in x.parameters],
+                [[k, e_from_real(v)] for k, v in x.kw_parameters.items()]]
+    if isinstance(x, p.Call):
+        return ["call", x.function.name, [e_from_real(c) for c in x.parameters], []]
     raise ValueError("unexpected expression %r" % (x,))
 
 
@@ -181,6 +260,10 @@ def e_to_coq(e):
         return "(EQuot %s %s)" % (e_to_coq(e[1]), e_to_coq(e[2]))
     if t == "cmp":
         return "(ECmp %s %s)" % (e_to_coq(e[1]), e_to_coq(e[2]))
+    if t == "call":
+        return "(ECall %s [%s] [%s])" % (coq_str(e[1]),
+                                         "; ".join(e_to_coq(c) for c in e[2] + [v for _, v in e[3]]),
+                                         "; ".join(coq_str(k) for k, _ in e[3]))
     raise ValueError(e)
 
 
@@ -190,11 +273,52 @@ def e_size(e):
         return 1
     if t in ("sum", "prod"):
         return 1 + sum(e_size(c) for c in e[1])
+    if t == "call":
+        return 2 + sum(e_size(c) for c in e[2]) + sum(e_size(v) for _, v in e[3])
     return 1 + e_size(e[1]) + e_size(e[2])
 
 
+def e_calls(e):
+    """function identifiers called in e"""
+    t = e[0]
+    if t in ("num", "var"):
+        return set()
+    if t in ("sum", "prod"):
+        return set().union(*[e_calls(c) for c in e[1]]) if e[1] else set()
+    if t == "call":
+        out = {e[1]}
+        for c in e[2] + [v for _, v in e[3]]:
+            out |= e_calls(c)
+        return out
+    return e_calls(e[1]) | e_calls(e[2])
+
+
+def is_call(s):
+    return "call" in s
+
+
+def s_calls(s):
+    if is_call(s):
+        out = {s["call"]}
+        for c in s["args"] + [v for _, v in s["kw"]]:
+            out |= e_calls(c)
+        return out
+    return e_calls(s["expr"])
+
+
+def prog_calls(prog):
+    out = set()
+    for _, s in prog["stmts"]:
+        out |= s_calls(s)
+    return out
+
+
 def stmt_to_real(i, s):
-    from dagrt.language import Assign
+    from dagrt.language import Assign, AssignFunctionCall
+    if is_call(s):
+        return AssignFunctionCall(id="s%d" % i, assignees=tuple(s["lhss"]), function_id=s["call"],
+                                  parameters=tuple(e_to_real(a) for a in s["args"]),
+                                  kw_parameters={k: e_to_real(v) for k, v in s["kw"]})
     return Assign(id="s%d" % i, assignee=s["lhs"],
                   assignee_subscript=(0,) if s["sub"] else (),
                   expression=e_to_real(s["expr"]),
@@ -221,47 +345,118 @@ def group(queue):
     return names, phases
 
 
-def run_real(prog, perm):
+def table_items(t):
+    items = [["", x, kind_from_real(k)] for x, k in t.global_table.items()]
+    for ph, tbl in t.per_phase_table.items():
+        items += [[ph, x, kind_from_real(k)] for x, k in tbl.items()]
+    return sorted(items)
+
+
+def leftover_calls(text):
+    """sensitive built-ins named by the statements printed after 'Left-over statements'"""
+    if "Left-over statements in kind inference:" not in text:
+        return None
+    tail = text.split("Left-over statements in kind inference:")[-1]
+    return sorted(f for f in SENSITIVE if f in tail)
+
+
+def _finish(call):
+    """Runs the finder, returns the canonical outcome:
+    ["table", sorted items, printed?] or ["err", class, left-over info]."""
+    buf = io.StringIO()
+    with contextlib.redirect_stdout(buf):
+        try:
+            t = call()
+        except Exception as ex:  # noqa: BLE001
+            return ["err", type(ex).__name__, leftover_calls(buf.getvalue())]
+    try:
+        items = table_items(t)
+    except Exception as ex:  # noqa: BLE001
+        return ["err", "Unrepresentable:" + type(ex).__name__, None]
+    return ["table", items, "trying to derive" in buf.getvalue()]
+
+
+def _with_restart(reg, names, phases, forced):
+    """Emulation of fixes/C14_worklist_restart.patch for the diagnosis of a failing program: when
+    the finder ends at its no-progress exit although its table changed during the pass, it is run
+    again with every entry of that table as a forced kind (= the next pass over all statements)."""
+    import dagrt.data as d
+    captured = []
+    orig = d.SymbolKindTable.__init__
+
+    def init(self):
+        orig(self)
+        captured.append(self)
+
+    d.SymbolKindTable.__init__ = init
+    try:
+        for _ in range(40):
+            del captured[:]
+            buf = io.StringIO()
+            try:
+                with contextlib.redirect_stdout(buf):
+                    return d.SymbolKindFinder(reg)(names, phases, forced_kinds=forced)
+            except (RuntimeError, AssertionError):
+                sys.stdout.write(buf.getvalue())
+                t = captured[-1] if captured else None
+                if t is None or not t.is_changed() or "Left-over statements" not in buf.getvalue():
+                    raise
+                forced = [(names[0], x, k) for x, k in t.global_table.items()]
+                for ph, tbl in t.per_phase_table.items():
+                    forced += [(ph, x, k) for x, k in tbl.items()]
+        raise RuntimeError("restart emulation did not converge")
+    finally:
+        d.SymbolKindTable.__init__ = orig
+
+
+def run_real(prog, perm, emulate=()):
     """One run of the real SymbolKindFinder.  prog = {"forced": [[phase, name, kind]],
     "stmts": [[phase, stmt]]}; perm = order in which the statements are presented."""
     from dagrt.data import SymbolKindFinder
     queue = [(prog["stmts"][i][0], stmt_to_real(i, prog["stmts"][i][1])) for i in perm]
     names, phases = group(queue)
     forced = [(p, x, kind_to_real(k)) for p, x, k in prog["forced"]]
-    buf = io.StringIO()
-    with contextlib.redirect_stdout(buf):
-        try:
-            t = SymbolKindFinder({})(names, phases, forced_kinds=forced)
-        except Exception as ex:  # noqa: BLE001
-            return ["err", type(ex).__name__]
-    try:
-        items = [["", x, kind_from_real(k)] for x, k in t.global_table.items()]
-        for ph, tbl in t.per_phase_table.items():
-            items += [[ph, x, kind_from_real(k)] for x, k in tbl.items()]
-    except Exception as ex:  # noqa: BLE001
-        return ["err", "Unrepresentable:" + type(ex).__name__]
-    return ["table", sorted(items), "trying to derive" in buf.getvalue()]
+    reg = test_registry()
+    if "arrays" in emulate:
+        reg = _RegProxy(reg)
+    if "restart" in emulate:
+        return _finish(lambda: _with_restart(reg, names, phases, forced))
+    return _finish(lambda: SymbolKindFinder(reg)(names, phases, forced_kinds=forced))
 
 
-def run_infer_kinds(prog):
-    """dagrt.data.infer_kinds on the DAGCode built from the program (distinct phases, no forced kinds)."""
+def phases_of(prog):
+    out = []
+    for ph, _ in prog["stmts"]:
+        if ph not in out:
+            out.append(ph)
+    return out
+
+
+def run_glue(prog, order, perm):
+    """dagrt.data.infer_kinds on the DAGCode whose phases dict is filled in the order `order`, the
+    statements of each phase in the order in which `perm` lists them (no forced kinds).  The
+    default registry (function_registry=None) is used when the program calls no user function."""
     from dagrt.data import infer_kinds
     from dagrt.language import DAGCode, ExecutionPhase
-    queue = [(ph, stmt_to_real(i, s)) for i, (ph, s) in enumerate(prog["stmts"])]
-    names, phases = group(queue)
-    if len(set(names)) != len(names) or prog["forced"]:
-        return None
-    dag = DAGCode({n: ExecutionPhase(n, n, sts) for n, sts in zip(names, phases)}, names[0])
-    buf = io.StringIO()
-    with contextlib.redirect_stdout(buf):
-        try:
-            t = infer_kinds(dag, function_registry={})
-        except Exception as ex:  # noqa: BLE001
-            return ["err", type(ex).__name__]
-    items = [["", x, kind_from_real(k)] for x, k in t.global_table.items()]
-    for ph, tbl in t.per_phase_table.items():
-        items += [[ph, x, kind_from_real(k)] for x, k in tbl.items()]
-    return ["table", sorted(items), "trying to derive" in buf.getvalue()]
+    phases = {}
+    for name in order:
+        phases[name] = ExecutionPhase(name, name, [stmt_to_real(i, prog["stmts"][i][1]) for i in perm
+                                                   if prog["stmts"][i][0] == name])
+    dag = DAGCode(phases, order[0])
+    reg = test_registry() if any(f.startswith("<func>") for f in prog_calls(prog)) else None
+    return _finish(lambda: infer_kinds(dag, function_registry=reg))
+
+
+def glue_presentations(prog, perms, cap_orders=6, cap_perms=4):
+    if prog["forced"] or not prog["stmts"]:
+        return []
+    orders = [list(o) for o in itertools.permutations(phases_of(prog))][:cap_orders]
+    if len(orders) == 1:
+        cap_perms = 2      # one phase: infer_kinds only forwards the statement list
+    ps = perms[:cap_perms]
+    if len(perms) > cap_perms:
+        ps = perms[:cap_perms - 1] + [perms[-1]]
+    return [[o, pm] for o in orders for pm in ps]
 
 
 def outcome_sim(a, b):
@@ -293,14 +488,14 @@ def perms_of(n, rng, cap):
 def worker():
     jobs = json.load(sys.stdin)
     out = []
-    for prog, perms in jobs:
-        out.append([run_real(prog, p) for p in perms])
+    for prog, perms, glue in jobs:
+        out.append([[run_real(prog, p) for p in perms], [run_glue(prog, o, p) for o, p in glue]])
     json.dump(out, sys.stdout)
 
 
 def run_all(jobs, seeds):
-    """jobs: list of (prog, perms).  Returns {seed: [[outcome per perm] per job]}.
-    Every seed runs in its own interpreters (PYTHONHASHSEED=n), sharded for parallelism."""
+    """jobs: list of (prog, perms, glue presentations).  Returns {seed: [[direct outcomes, glue
+    outcomes] per job]}.  Every seed runs in its own interpreters (PYTHONHASHSEED=n), sharded."""
     nshard = max(1, common.NPROC // len(seeds))
     size = (len(jobs) + nshard - 1) // nshard if jobs else 1
     procs = []
@@ -358,6 +553,10 @@ def P(*c):
     return ["prod", list(c)]
 
 
+def F(fid, *args, **kw):
+    return ["call", fid, list(args), [[k, v] for k, v in kw.items()]]
+
+
 A, B, Y, T, I, ZZ = V("a"), V("b"), V("<state>y"), V("<t>"), V("i"), V("zz")
 
 EXPRS_CORE = [N("1"), N("1j"), A, B, S(A, N("1")), S(N("1"), B), P(A, B), ["cmp", T, N("0")],
@@ -369,6 +568,10 @@ EXPRS_MORE = [T, I, Y, S(A, N("1j")), S(N("0"), I), P(I, N("1")), S(["cmp", A, B
 
 def mk(lhs, expr, loops=(), sub=False):
     return {"lhs": lhs, "sub": bool(sub), "loops": list(loops), "expr": expr}
+
+
+def mkc(lhss, fid, *args, **kw):
+    return {"call": fid, "lhss": list(lhss), "args": list(args), "kw": [[k, v] for k, v in kw.items()]}
 
 
 def alphabet(exprs, lhss, shapes):
@@ -384,6 +587,99 @@ FORCED_POOL = [["p", "i", "Integer"], ["p", "a", "User:u"], ["p", "b", "Array:1"
                ["p", "<state>y", "User:u"], ["p", "b", "Integer"], ["q", "i", "Integer"],
                ["p", "a", "Scalar:0"], ["p", "<state>y", "Array:0"], ["p", "a", "Boolean"],
                ["p", "b", "User:v"]]
+
+# every function of the registry, with `a` as the argument whose kind matters: (expression, number
+# of results) -- used as call statement (b... <- f(...)) and nested in an expression
+ONE = N("1")
+
+
+def uses_of(x):
+    return [
+        (F("<builtin>norm_1", x), 1), (F("<builtin>norm_2", x), 1), (F("<builtin>norm_inf", x=x), 1),
+        (F("<builtin>elementwise_abs", x), 1), (F("<builtin>dot_product", x, x), 1),
+        (F("<builtin>dot_product", x, y=x), 1), (F("<builtin>len", x), 1), (F("<builtin>isnan", x), 1),
+        (F("<builtin>array", x), 1), (F("<builtin>matmul", x, x, ONE, ONE), 1),
+        (F("<builtin>matmul", x, b_cols=ONE, a_cols=ONE, b=x), 1),
+        (F("<builtin>transpose", x, ONE), 1), (F("<builtin>linear_solve", x, x, ONE, ONE), 1),
+        (F("<builtin>svd", x, ONE), 3), (F("<builtin>print", x), 0),
+        (F("<func>f", T, x), 1), (F("<func>g", x), 2), (F("<func>nope", x), 1),
+        (F("<builtin>norm_2", x, x), 1),       # too many arguments
+    ]
+
+
+def definers(x):
+    """statements that give x a kind: array, real / complex scalar, integer, user type, flag"""
+    return [mkc([x], "<builtin>array", N("3")), mk(x, N("1")), mk(x, N("1j")), mk(x, I, ("i",)),
+            mk(x, F("<func>f", T, Y)), mk(x, ["cmp", T, N("0")]),
+            mk(x, S(I, V("zz")), ("i",)),      # Integer until zz is known
+            mk(x, P(V(x), N("1j"))),           # raises x to complex once x is known
+            mk(x, F("<func>h", T, w=Y))]       # a second user type
+
+
+def call_programs(tier):
+    """exhaustive small scope around one call: the argument `a` defined by 1 or 2 statements, the call
+    as call statement or nested in a sum / a product, an optional reader of the result; all in
+    phase p.  (Every order of the statements is presented: arguments defined before and after.)"""
+    progs = []
+    defs = definers("a")
+    zz = mk("zz", N("2.5"))
+    for fe, nres in uses_of(A):
+        fid = fe[1]
+        users = [mkc(["b", "c", "d"][:nres], fid, *fe[2], **dict(fe[3])),
+                 mk("b", S(fe, N("1"))), mk("b", P(N("2"), fe))]
+        for ui, u in enumerate(users):
+            for d in defs:
+                progs.append({"forced": [], "stmts": [["p", d], ["p", u]]})
+            if tier == "quick" and ui == 2:
+                continue      # quick: two definitions only with the call statement and the sum
+            pairs = list(itertools.combinations(range(len(defs)), 2))
+            for i1, i2 in pairs:
+                st = [["p", defs[i1]], ["p", defs[i2]], ["p", u]]
+                if any("zz" in json.dumps(x[1]) for x in st[:2]):
+                    st.append(["p", zz])
+                progs.append({"forced": [], "stmts": st})
+    # readers of the result: the kind has to propagate
+    reader = mk("<state>y", P(B, V("<dt>")))
+    for fe, nres in uses_of(A):
+        if nres != 1:
+            continue
+        for d in defs[:5]:
+            progs.append({"forced": [], "stmts": [["p", d], ["p", mkc(["b"], fe[1], *fe[2], **dict(fe[3]))],
+                                                  ["p", reader]]})
+            progs.append({"forced": [], "stmts": [["p", d], ["p", mk("b", S(fe, N("1")))], ["p", reader],
+                                                  ["p", mk("c", F("<builtin>norm_2", B))]]})
+    if tier == "quick":
+        return progs
+    # thorough: the same with the argument nested one level deeper
+    for fe, nres in uses_of(S(A, N("1"))):
+        for d in defs:
+            progs.append({"forced": [], "stmts": [["p", d], ["p", mk("b", S(fe, N("1")))]]})
+    return progs
+
+
+def glue_programs(tier):
+    """programs with two or three phases in which the same local name gets different kinds in
+    different phases; presented to infer_kinds in every dict order"""
+    loc = [mk("a", N("1j")), mk("a", ["cmp", T, N("0")]), mkc(["a"], "<builtin>array", N("3")),
+           mk("a", F("<func>f", T, Y)), mk("a", I, ("i",)), mk("b", S(A, N("1"))),
+           mk("b", F("<builtin>dot_product", A, A)), mkc(["b"], "<builtin>elementwise_abs", A),
+           mk("<state>y", P(A, N("2"))), mk("a", N("1"))]
+    progs = []
+    for s1 in loc:
+        for s2 in loc:
+            if s1 is s2:
+                continue
+            progs.append({"forced": [], "stmts": [["q", s1], ["p", s2]]})
+    few = loc[:5] + loc[6:8]
+    for s1, s2, s3 in itertools.permutations(few, 3):
+        if s1["lhs" if "lhs" in s1 else "lhss"] == s3["lhs" if "lhs" in s3 else "lhss"]:
+            continue
+        progs.append({"forced": [], "stmts": [["q", s1], ["p", s2], ["q", s3]]})
+    for s1, s2, s3 in itertools.combinations(loc[:6], 3):
+        progs.append({"forced": [], "stmts": [["r", s1], ["q", s2], ["p", s3]]})
+    if tier == "quick":
+        return progs[:90] + progs[90::3]
+    return progs
 
 
 def corpus():
@@ -424,66 +720,133 @@ def gen_programs(tier, seed):
         # (the leading statement is a subscripted assignment: it never counts as progress)
         progs.append({"forced": [], "stmts": [["p", mk("c", N("1"), (), True)]] + [["q", s] for s in pr]})
     n3q = len(progs) - n_corpus - n2 - n3
-    # random structured: 2-5 statements, two phases, forced kinds
+    # function calls: exhaustive small scope around one call
+    cp = call_programs(tier)
+    progs += cp
+    # several phases, same local names
+    gp = glue_programs(tier)
+    progs += gp
+    # random structured: 2-5 statements, two phases, forced kinds, calls
     big = alphabet(EXPRS_CORE + EXPRS_MORE, ["a", "b", "<state>y", "c"],
                    [((), False), ((), False), (("i",), False), (("i",), True), (("i", "j"), False)])
+    callpool = []
+    for x in (A, B, Y):
+        for fe, nres in uses_of(x):
+            for lhs in ("a", "b", "c"):
+                callpool.append(mk(lhs, S(fe, N("1"))))
+                callpool.append(mk(lhs, fe))
+            callpool.append(mkc(["b", "c", "a"][:nres], fe[1], *fe[2], **dict(fe[3])))
+    callpool += definers("a") + definers("b")
     nrand = 350 if tier == "quick" else 4000
-    for _ in range(nrand):
+    for k in range(nrand):
         n = rng.choice([2, 3, 3, 4, 4, 5])
         two = rng.random() < 0.3
-        stmts = [[("q" if two and rng.random() < 0.4 else "p"), rng.choice(big)] for _ in range(n)]
+        withcalls = k % 2 == 1
+        stmts = [[("q" if two and rng.random() < 0.4 else "p"),
+                  rng.choice(callpool) if withcalls and rng.random() < 0.6 else rng.choice(big)]
+                 for _ in range(n)]
         forced = rng.sample(FORCED_POOL, rng.choice([0, 0, 1, 1, 2, 3]))
         progs.append({"forced": forced, "stmts": stmts})
     dist = {"corpus": n_corpus, "exhaustive_2_statements": n2, "exhaustive_3_statements": n3,
             "exhaustive_second_phase_pairs": n3q,
+            "function_calls_small_scope": len(cp), "several_phases_same_locals": len(gp),
             "random": nrand,
             "exhaustive_scope": "all ordered pairs over %d statements (2 assignees x %d expressions x "
                                 "{plain, loop i, subscripted+loop i}); all triples over %d statements"
                                 % (len(alpha2), len(alpha2) // 6, len(alpha3)),
-            "random_scope": "2-5 statements from %d (4 assignees incl. a state variable, %d expressions, "
-                            "0-2 loop variables, subscripts), 1-2 phases, 0-3 forced kinds from %d"
-                            % (len(big), len(EXPRS_CORE + EXPRS_MORE), len(FORCED_POOL))}
+            "function_call_scope": "%d uses (every built-in and registered function, positional and keyword "
+                                   "arguments, wrong arity, unknown function) x {call statement, nested in a "
+                                   "sum, nested in a product} x 1-2 of %d definitions of the argument (array, "
+                                   "real/complex scalar, integer, user type, flag, late integer->scalar, "
+                                   "late real->complex), with and without readers of the result"
+                                   % (len(uses_of(A)), len(definers("a"))),
+            "phase_scope": "2-3 phases p/q/r listed in non-sorted order, the local `a` (and `b`) defined "
+                           "with different kinds in different phases, a state variable written in one phase",
+            "random_scope": "2-5 statements from %d assignments + %d call-related statements (4 assignees incl. "
+                            "a state variable, %d expressions, 0-2 loop variables, subscripts), 1-2 phases, "
+                            "0-3 forced kinds from %d"
+                            % (len(big), len(callpool), len(EXPRS_CORE + EXPRS_MORE), len(FORCED_POOL))}
     return progs, dist
 
 
 # ------------------------------------------------------------------ oracle on programs
 
-def oracle_inproc(prog, cap=120):
-    """In-process (one hash seed) decision of order independence, used for shrinking/diagnosis."""
+def oracle_inproc(prog, cap=120, emulate=()):
+    """In-process (one hash seed) decision of order independence (statements and phases), used for
+    shrinking / diagnosis / replay.  Returns (ok, direct outcomes, glue outcomes)."""
     n = len(prog["stmts"])
-    outs = [run_real(prog, p) for p in perms_of(n, random.Random(0), cap)]
-    return all(outcome_sim(outs[0], o) for o in outs), outs
+    perms = perms_of(n, random.Random(0), cap)
+    outs = [run_real(prog, p, emulate) for p in perms]
+    gouts = [] if emulate else [run_glue(prog, o, p) for o, p in glue_presentations(prog, perms)]
+    ok = all(outcome_sim(outs[0], o) for o in outs + gouts)
+    return ok, outs, gouts
 
 
 def unforced_loops(prog):
     forced = {(p, x) for p, x, k in prog["forced"] if k == "Integer"}
-    return sorted({(ph, i) for ph, s in prog["stmts"] for i in s["loops"]} - forced)
+    return sorted({(ph, i) for ph, s in prog["stmts"] if not is_call(s) for i in s["loops"]} - forced)
 
 
-def diagnose(prog, outs):
+def diagnose(prog, outs, gouts=()):
     """Narrow classes of order dependence (independent of the model)."""
+    if all(outcome_sim(outs[0], o) for o in outs):
+        # the finder itself is order independent on this program: the DAGCode front end is not
+        return "infer_kinds_depends_on_presentation"
     if any(o[0] == "table" and o[2] for o in outs):
         return "conflicting_kinds_first_wins"
     ul = unforced_loops(prog)
     if ul:
         p2 = {"forced": prog["forced"] + [[ph, i, "Integer"] for ph, i in ul], "stmts": prog["stmts"]}
-        ok, outs2 = oracle_inproc(p2)
+        ok, outs2, _ = oracle_inproc(p2)
         if ok and not any(o[0] == "table" and o[2] for o in outs2):
             return "unforced_loop_variable"
+    # the two defects whose repair is pending: the failure disappears when the repair is emulated
+    errs = [o for o in outs if o[0] == "err"]
+    calls = prog_calls(prog)
+    stuck = bool(errs) and all(o[1] in ("RuntimeError", "AssertionError") and o[2] for o in errs) \
+        and any(o[0] == "table" for o in outs)
+    matrix = any(f in MATRIX for f in calls)
+    tries = []
+    if stuck:
+        tries.append(("restart",))
+    if matrix:
+        tries.append(("arrays",))
+    if matrix and any(f in SENSITIVE for f in calls):
+        tries.append(("restart", "arrays"))
+    for em in tries:
+        if oracle_inproc(prog, emulate=em)[0]:
+            return "+".join({"restart": "gives_up_although_table_changed",
+                             "arrays": "matrix_builtin_accepts_scalar"}[x] for x in em)
     if all(o[0] == "table" for o in outs):
         return "tables_differ_without_unification_failure"
     return "error_in_some_orders_only"
 
 
+def s_size(s):
+    if is_call(s):
+        return 1 + len(s["lhss"]) + sum(e_size(c) for c in s["args"]) + sum(e_size(v) for _, v in s["kw"])
+    return e_size(s["expr"]) + len(s["loops"]) + s["sub"]
+
+
 def prog_size(prog):
-    return (len(prog["stmts"]), len(prog["forced"]),
-            sum(e_size(s["expr"]) + len(s["loops"]) + s["sub"] for _, s in prog["stmts"]))
+    return (len(prog["stmts"]), len(prog["forced"]), sum(s_size(s) for _, s in prog["stmts"]))
+
+
+def sub_exprs(e):
+    subs = []
+    if e[0] in ("sum", "prod"):
+        subs += e[1]
+        if len(e[1]) > 2:
+            subs += [[e[0], e[1][:j] + e[1][j + 1:]] for j in range(len(e[1]))]
+    elif e[0] in ("quot", "cmp"):
+        subs += [e[1], e[2]]
+    return subs
 
 
 def shrink_prog(prog, cls):
     def fails(p):
-        ok, outs = oracle_inproc(p)
-        return (not ok) and diagnose(p, outs) == cls
+        ok, outs, gouts = oracle_inproc(p)
+        return (not ok) and diagnose(p, outs, gouts) == cls
 
     changed = True
     while changed:
@@ -494,15 +857,9 @@ def shrink_prog(prog, cls):
         for i in range(len(prog["forced"])):
             cands.append({"forced": prog["forced"][:i] + prog["forced"][i + 1:], "stmts": prog["stmts"]})
         for i, (ph, s) in enumerate(prog["stmts"]):
-            subs = []
-            e = s["expr"]
-            if e[0] in ("sum", "prod"):
-                subs += e[1]
-                if len(e[1]) > 2:
-                    subs += [[e[0], e[1][:j] + e[1][j + 1:]] for j in range(len(e[1]))]
-            elif e[0] in ("quot", "cmp"):
-                subs += [e[1], e[2]]
-            for e2 in subs:
+            if is_call(s):
+                continue
+            for e2 in sub_exprs(s["expr"]):
                 cands.append({"forced": prog["forced"], "stmts": prog["stmts"][:i] + [
                     [ph, dict(s, expr=e2)]] + prog["stmts"][i + 1:]})
             if s["loops"]:
@@ -524,26 +881,39 @@ def shrink_prog(prog, cls):
 HEADER = ("From Coq Require Import List String Bool Arith.\nImport ListNotations.\n"
           "From Dagrt Require Import GenC14 Unify KindInfer KindInferCfg.\nOpen Scope string_scope.\n"
           + "".join("Definition %s : string := %s.\n" % (v, coq_lit(k)) for k, v in sorted(KNOWN_STRINGS.items()))
-          + "Inductive case :=\n"
+          + "Definition tcfg : cfg := gen_cfg_with %s.\n" % TEST_REG_COQ +
+          "Inductive case :=\n"
           "| CU2 (a b : okind) (r : res okind)\n"
           "| CU3 (a b c : okind) (l r : res okind)\n"
           "| CP (forced : list (string * string * okind)) (stmts : list qitem)\n"
-          "     (runs : list (list nat * outcome)).\n"
-          "Definition dflt : qitem := (\"\", {| b_lhs := \"\"; b_sub := true; b_loops := []; "
-          "b_flat := EConst true; b_raw := EConst true |}).\n"
+          "     (runs : list (list nat * outcome)) (gruns : list (list string * list nat * outcome)).\n"
+          "Definition dflt : qitem := (\"\", {| b_lhs := []; b_sub := true; b_loops := []; "
+          "b_rhs := RExpr (EConst true) (EConst true) |}).\n"
+          "(* the phases dict filled in the order `order`, each phase with its statements in list order *)\n"
+          "Definition dag_of (order : list string) (items : list qitem) : list (string * list bstmt) :=\n"
+          "  map (fun ph => (ph, map snd (filter (fun it => String.eqb (fst it) ph) items))) order.\n"
           "Definition chk (c : case) : bool :=\n"
           "  match c with\n"
           "  | CU2 a b r => res_eqb (gen_unify a b) r\n"
           "  | CU3 a b c l r => res_eqb (bind (gen_unify a b) (fun x => gen_unify x c)) l\n"
           "                     && res_eqb (bind (gen_unify b c) (fun y => gen_unify a y)) r\n"
-          "  | CP forced stmts runs =>\n"
-          "      forallb (fun pr => outcome_eqb (run_queue gen_cfg 60 forced\n"
+          "  | CP forced stmts runs gruns =>\n"
+          "      forallb (fun pr => outcome_eqb (run_queue tcfg 60 forced\n"
           "                 (map (fun i => nth i stmts dflt) (fst pr))) (snd pr)) runs\n"
+          "      && forallb (fun pr => outcome_eqb (infer_kinds tcfg 60 (dag_of (fst (fst pr))\n"
+          "                 (map (fun i => nth i stmts dflt) (snd (fst pr))))) (snd pr)) gruns\n"
           "  end.\n")
 
 
-def stmt_to_coq(ph, s, flat, raw):
-    return ("(%s, {| b_lhs := %s; b_sub := %s; b_loops := [%s]; b_flat := %s; b_raw := %s |})"
+def stmt_to_coq(ph, s):
+    if is_call(s):
+        rhs = "RCall %s [%s] [%s]" % (coq_str(s["call"]),
+                                      "; ".join(e_to_coq(c) for c in s["args"] + [v for _, v in s["kw"]]),
+                                      "; ".join(coq_str(k) for k, _ in s["kw"]))
+        return ("(%s, {| b_lhs := [%s]; b_sub := false; b_loops := []; b_rhs := %s |})"
+                % (coq_str(ph), "; ".join(coq_str(x) for x in s["lhss"]), rhs))
+    flat, raw = flat_and_raw(s)
+    return ("(%s, {| b_lhs := [%s]; b_sub := %s; b_loops := [%s]; b_rhs := RExpr %s %s |})"
             % (coq_str(ph), coq_str(s["lhs"]), "true" if s["sub"] else "false",
                "; ".join(coq_str(i) for i in s["loops"]), e_to_coq(flat), e_to_coq(raw)))
 
@@ -558,50 +928,65 @@ def outcome_to_coq(o):
     return "(OTable [%s] %s)" % (items, "true" if o[2] else "false")
 
 
-def prog_to_coq(prog, runs):
-    forced = "; ".join("(%s, %s, %s)" % (coq_str(p), coq_str(x), kind_to_coq(k)) for p, x, k in prog["forced"])
-    stmts = []
-    for ph, s in prog["stmts"]:
-        flat, raw = flat_and_raw(s)
-        stmts.append(stmt_to_coq(ph, s, flat, raw))
-    rs = []
+def forced_to_coq(prog):
+    return "; ".join("(%s, %s, %s)" % (coq_str(p), coq_str(x), kind_to_coq(k)) for p, x, k in prog["forced"])
+
+
+def prog_to_coq(prog, runs, gruns):
+    stmts = [stmt_to_coq(ph, s) for ph, s in prog["stmts"]]
+    rs, gs = [], []
     for perm, o in runs:
         oc = outcome_to_coq(o)
         if oc is None:
             return None
         rs.append("([%s], %s)" % ("; ".join(str(i) for i in perm), oc))
-    return "(CP [%s] [%s] [%s])" % (forced, "; ".join(stmts), "; ".join(rs))
+    for (order, perm), o in gruns:
+        oc = outcome_to_coq(o)
+        if oc is None:
+            return None
+        gs.append("([%s], [%s], %s)" % ("; ".join(coq_str(x) for x in order), "; ".join(str(i) for i in perm), oc))
+    return "(CP [%s] [%s] [%s] [%s])" % (forced_to_coq(prog), "; ".join(stmts), "; ".join(rs), "; ".join(gs))
 
 
 def run_term(prog, perm):
-    forced = "; ".join("(%s, %s, %s)" % (coq_str(p), coq_str(x), kind_to_coq(k)) for p, x, k in prog["forced"])
-    stmts = []
-    for i in perm:
-        ph, s = prog["stmts"][i]
-        flat, raw = flat_and_raw(s)
-        stmts.append(stmt_to_coq(ph, s, flat, raw))
-    return "run_queue gen_cfg 60 [%s] [%s]" % (forced, "; ".join(stmts))
+    stmts = [stmt_to_coq(*prog["stmts"][i]) for i in perm]
+    return "run_queue tcfg 60 [%s] [%s]" % (forced_to_coq(prog), "; ".join(stmts))
+
+
+def glue_term(prog, order, perm):
+    stmts = [stmt_to_coq(*prog["stmts"][i]) for i in perm]
+    return "infer_kinds tcfg 60 (dag_of [%s] [%s])" % ("; ".join(coq_str(x) for x in order), "; ".join(stmts))
 
 
 # ------------------------------------------------------------------ known findings
 
 def match_known(known, cls):
-    """An open entry suppresses exactly the failures diagnosed as its class (see diagnose())."""
-    for f in known:
-        if f.get("class") == cls:
-            return f
-    return None
+    """An open entry suppresses exactly the failures diagnosed as its class (see diagnose()); a
+    failure that needs two pending repairs is suppressed when both are open."""
+    fs = []
+    for part in cls.split("+"):
+        hit = [f for f in known if f.get("class") == part]
+        if not hit:
+            return None
+        fs.append(hit[0])
+    return fs[0]
 
 
 def known_text(f, cls):
     return "%s: %s" % (cls, (f.get("what_fails") or "").split(". ")[0])
 
 
+# switch of GenC14.v that is a premise of the order-independence theorems in props/C14.v -> class of
+# the open known finding that explains why it is false
+PENDING = {"finder_restarts_after_change": "gives_up_although_table_changed",
+           "builtins_require_arrays": "matrix_builtin_accepts_scalar"}
+
+
 # ------------------------------------------------------------------ the check
 
 def unify_part(rep, known):
     """Exhaustive over the kind universe.  Returns coq terms, descriptions, counters."""
-    terms, descr = [], []
+    terms = []
     fails = {}
     pairs = {}
     for a in KINDS:
@@ -663,11 +1048,88 @@ def shape_switches():
         tree = tr._parse(common.REPO, "dagrt/data.py")
         ut, arr = tr.unify_flags(tree)
         ins, raises, _ = tr.set_flags(tree)
+        prepass, restart = tr.finder_facts(tree)
         return {"unify_usertype_accepts_int": ut, "unify_array_accepts_int": arr,
                 "set_insert_marks_changed": ins, "set_reraises": raises,
-                "loop_variables_prepass": tr.finder_facts(tree)}
+                "loop_variables_prepass": prepass, "finder_restarts_after_change": restart,
+                "builtins_require_arrays": tr.pinned(common.REPO)}
     except Exception as ex:  # noqa: BLE001
         return {"error": "%s: %s" % (type(ex).__name__, ex)}
+
+
+def real_le(x, y):
+    """x <= y for real kinds: joining x into y leaves y unchanged (None is below everything)"""
+    from dagrt.data import unify
+    if x is None:
+        return True
+    if y is None:
+        return False
+    if x == y:
+        return True
+    try:
+        return unify(x, y) == y
+    except Exception:  # noqa: BLE001
+        return False
+
+
+def real_rk(f, args):
+    """get_result_kinds(check=False) on positional argument kinds; None = any exception (which
+    map_generic_call turns into UnableToInferKind)"""
+    try:
+        return tuple(f.get_result_kinds(dict(enumerate(args)), False))
+    except Exception:  # noqa: BLE001
+        return None
+
+
+def not_monotone(r_lo, r_hi):
+    if r_lo is not None and r_hi is None:
+        return "defined for the smaller kinds only"
+    if r_lo is not None and r_hi is not None and (
+            len(r_lo) != len(r_hi) or not all(real_le(x, y) for x, y in zip(r_lo, r_hi))):
+        return "result kinds do not grow with the argument kinds"
+    return None
+
+
+def registry_monotone_part(rep, known):
+    """Implementation-level oracle for the registry: get_result_kinds(check=False) of every function of
+    the test registry on argument vectors a <= a' over the kind universe (None below everything,
+    <= decided by the real unify): a result for a' and none... is fine; a result for a and none for
+    a', or results that are not <=, are reported.  Returns (#comparisons, failures)."""
+    reg = test_registry()
+    ks = [kind_to_real(k) for k in KINDS]
+    le, rk = real_le, real_rk
+    n = 0
+    fails = {}
+    for fid in sorted(reg.id_to_function):
+        f = reg[fid]
+        arity = len(tuple(f.arg_names))
+        # the kind of at most the first two arguments matters; the others are kept at Scalar(real)
+        vary = min(arity, 2)
+        for lo in itertools.product(ks, repeat=vary):
+            for hi in itertools.product(ks, repeat=vary):
+                if not all(le(x, y) for x, y in zip(lo, hi)):
+                    continue
+                rest = [kind_to_real("Scalar:1")] * (arity - vary)
+                r_lo, r_hi = rk(f, list(lo) + rest), rk(f, list(hi) + rest)
+                n += 1
+                bad = not_monotone(r_lo, r_hi)
+                if bad and fid not in fails:
+                    fails[fid] = {"function": fid, "why": bad,
+                                  "smaller_arguments": [kind_from_real(k) for k in lo],
+                                  "larger_arguments": [kind_from_real(k) for k in hi],
+                                  "result_smaller": None if r_lo is None else [kind_from_real(k) for k in r_lo],
+                                  "result_larger": None if r_hi is None else [kind_from_real(k) for k in r_hi]}
+    for fid, w in sorted(fails.items()):
+        cls = "matrix_builtin_accepts_scalar" if fid in MATRIX else "result_kinds_not_monotone"
+        f = match_known(known, cls)
+        if f:
+            rep.known_finding(known_text(f, cls))
+        else:
+            rep.violation({"what": "get_result_kinds of %s is not monotone in the argument kinds (kind inference "
+                                   "then depends on the statement order): %s" % (fid, w["why"]),
+                           "class": cls, "kind": "registry", "witness": w,
+                           "replay": "./check C14 --replay <this file>"})
+    return n, fails
 
 
 def main(tier):
@@ -679,21 +1141,35 @@ def main(tier):
     timing = {}
     ps = common.proof_stage(rep, PID, gen=["c14"])
     timing["proof_stage_s"] = round(time.time() - t0, 1)
+    switches = shape_switches()
+    # a premise of the order-independence theorems that does not hold must be explained by an open finding
+    vacuous = [sw for sw, cls in sorted(PENDING.items())
+               if switches.get(sw) is False and not match_known(known, cls)]
+    if ps["ok"] and vacuous:
+        ps = dict(ok=False, stage="premise", theorem="props/C14.v C14_order_independent / C14_infer_kinds_phase_order "
+                  "(premise %s = true does not hold on this tree and no open known finding covers it)"
+                  % ", ".join(vacuous), detail=vacuous)
 
     # ---- part 1: unify on the complete universe
     uterms, n_pairs, n_triples, ufails = unify_part(rep, known)
+    # ---- part 1b: the registry is monotone
+    n_reg, regfails = registry_monotone_part(rep, known)
 
-    # ---- part 2: inference under permutations and hash seeds
+    # ---- part 2: inference under permutations of statements and phases, and hash seeds
     progs, dist = gen_programs(tier, seed)
     rng = random.Random(seed * 31 + 1)
     cap = 120
-    jobs = [(p, perms_of(len(p["stmts"]), rng, cap)) for p in progs]
+    jobs = []
+    for p in progs:
+        perms = perms_of(len(p["stmts"]), rng, cap)
+        jobs.append((p, perms, glue_presentations(p, perms)))
     seeds = SEEDS_QUICK if tier == "quick" else SEEDS_THOROUGH
     t1 = time.time()
     res, werrors = run_all(jobs, seeds)
     timing["impl_runs_s"] = round(time.time() - t1, 1)
     t1 = time.time()
-    n_runs = sum(len(pm) for _, pm in jobs) * len(seeds)
+    n_runs = sum(len(pm) for _, pm, _ in jobs) * len(seeds)
+    n_glue = sum(len(g) for _, _, g in jobs) * len(seeds)
 
     failing = {}          # class -> (prog, detail)
     n_fail_progs = 0
@@ -704,24 +1180,14 @@ def main(tier):
             for j, (a, b) in enumerate(zip(base, res[sd])):
                 if a != b and seed_dependent is None:
                     seed_dependent = (j, sd)
-        for j, (prog, perms) in enumerate(jobs):
-            outs = base[j]
-            if all(outcome_sim(outs[0], o) for o in outs):
+        for j, (prog, perms, glue) in enumerate(jobs):
+            outs, gouts = base[j]
+            if all(outcome_sim(outs[0], o) for o in outs + gouts):
                 continue
             n_fail_progs += 1
-            cls = diagnose(prog, outs)
+            cls = diagnose(prog, outs, gouts)
             if cls not in failing or prog_size(prog) < prog_size(failing[cls][0]):
                 failing[cls] = (prog, perms, outs)
-        # infer_kinds (DAGCode entry point) agrees with the direct call on the presented order
-        ik_checked = 0
-        for j, (prog, perms) in enumerate(jobs[:400]):
-            r = run_infer_kinds(prog)
-            if r is not None:
-                ik_checked += 1
-                if r != base[j][0] and "infer_kinds_differs" not in failing:
-                    failing["infer_kinds_differs"] = (prog, [perms[0]], [base[j][0], r])
-    else:
-        ik_checked = 0
 
     if seed_dependent is not None:
         j, sd = seed_dependent
@@ -730,26 +1196,27 @@ def main(tier):
                        "outcomes_seed_a": res[seeds[0]][j], "outcomes_seed_b": res[sd][j]})
 
     for cls, (prog, perms, outs) in sorted(failing.items()):
-        if cls == "infer_kinds_differs":
-            rep.violation({"what": "infer_kinds(DAGCode) and SymbolKindFinder disagree", "class": cls,
-                           "program": prog, "outcomes": outs, "kind": "program"})
-            continue
-        small = shrink_prog(prog, cls)
-        ok, souts = oracle_inproc(small)
-        sperms = perms_of(len(small["stmts"]), random.Random(0), 120)
-        distinct = []
-        for pm, o in zip(sperms, souts):
-            if not any(outcome_sim(o, d[1]) for d in distinct):
-                distinct.append((pm, o))
-        detail = {"what": "kind inference depends on the order in which statements are presented",
-                  "class": cls, "kind": "program", "program": small,
-                  "orders_with_different_outcomes": [{"order": pm, "outcome": o} for pm, o in distinct],
-                  "replay": "./check C14 --replay <this file>"}
         f = match_known(known, cls)
         if f:
             rep.known_finding(known_text(f, cls))
-        else:
-            rep.violation(detail)
+            continue
+        small = shrink_prog(prog, cls)
+        ok, souts, sgouts = oracle_inproc(small)
+        sperms = perms_of(len(small["stmts"]), random.Random(0), 120)
+        distinct = []
+        for pm, o in zip(sperms, souts):
+            if not any(outcome_sim(o, d["outcome"]) for d in distinct):
+                distinct.append({"statement_order": pm, "outcome": o})
+        for (order, pm), o in zip(glue_presentations(small, sperms), sgouts):
+            if not any(outcome_sim(o, d["outcome"]) for d in distinct):
+                distinct.append({"infer_kinds_phases_dict_order": order, "statement_order": pm, "outcome": o})
+        what = "kind inference depends on the order in which statements are presented"
+        if cls == "infer_kinds_depends_on_presentation":
+            what = ("dagrt.data.infer_kinds depends on the order in which the phases dict of the DAGCode "
+                    "lists the phases (SymbolKindFinder called directly does not)")
+        rep.violation({"what": what, "class": cls, "kind": "program", "program": small,
+                       "presentations_with_different_outcomes": distinct,
+                       "replay": "./check C14 --replay <this file>"})
 
     timing["oracle_and_shrinking_s"] = round(time.time() - t1, 1)
     t1 = time.time()
@@ -772,19 +1239,25 @@ def main(tier):
                 terms.append(ct)
             origin.append(("unify", t))
         maxp = 6 if tier == "quick" else 24
-        for j, (prog, perms) in enumerate(jobs):
-            outs = res[seeds[0]][j]
+        maxg = 3 if tier == "quick" else 12
+        for j, (prog, perms, glue) in enumerate(jobs):
+            outs, gouts = res[seeds[0]][j]
             idx = list(range(len(perms)))
             if len(idx) > maxp:
                 idx = [0, len(perms) - 1] + rng.sample(idx[1:-1], maxp - 2)
             runs = [(perms[i], outs[i]) for i in idx]
-            ct = prog_to_coq(prog, runs)
+            gidx = list(range(len(glue)))
+            mg = maxg if len(phases_of(prog)) > 1 else 1
+            if len(gidx) > mg:
+                gidx = [len(glue) - 1] + rng.sample(gidx[:-1], mg - 1)
+            gruns = [(glue[i], gouts[i]) for i in gidx]
+            ct = prog_to_coq(prog, runs, gruns)
             if ct is None:
                 unrepresentable += 1
                 ct = "(CU2 None None (@Err okind TypeError))"
             terms.append(ct)
-            origin.append(("program", prog, runs))
-            n_model_runs += len(runs)
+            origin.append(("program", prog, runs, gruns))
+            n_model_runs += len(runs) + len(gruns)
         # one wave of coqc processes: loading the libraries dominates the cost of a shard
         shard = max(150, (len(terms) + common.NPROC - 1) // common.NPROC)
         mism, n_eval, cerrs = common.eval_cases(PID, HEADER, terms, "chk", shard=shard)
@@ -803,64 +1276,82 @@ def main(tier):
             if o[0] == "unify":
                 detail["first_disagreeing_case"] = {"unify_case": o[1]}
             else:
-                prog, runs = o[1], o[2]
+                prog, runs, gruns = o[1], o[2], o[3]
                 bad = None
-                for pm, out in runs:
-                    txt = common.eval_term(HEADER, run_term(prog, pm))
-                    bad = {"program": prog, "order": pm, "impl_result": out, "model_result": txt}
+                cands = [(run_term(prog, pm), {"statement_order": pm}, out) for pm, out in runs] + \
+                        [(glue_term(prog, od, pm), {"phases_dict_order": od, "statement_order": pm}, out)
+                         for (od, pm), out in gruns]
+                for term, how, out in cands:
                     oc = outcome_to_coq(out)
-                    chk = common.eval_term(HEADER, "outcome_eqb (%s) %s" % (run_term(prog, pm), oc)) if oc else "false"
+                    chk = common.eval_term(HEADER, "outcome_eqb (%s) %s" % (term, oc)) if oc else "false"
                     if "true" not in chk:
+                        bad = dict(how, program=prog, impl_result=out, model_result=common.eval_term(HEADER, term))
                         break
                 detail["first_disagreeing_case"] = bad
             detail["n_disagreements"] = len(mism)
         detail["broken"] = ("theorem file %s" % ps.get("theorem")) if not ps["ok"] else \
-            "correspondence dagrt.data.unify/SymbolKindFinder ~ Dagrt.Unify.unify/Dagrt.KindInfer.run_queue"
+            "correspondence dagrt.data.unify/SymbolKindFinder/infer_kinds ~ Dagrt.Unify.unify/Dagrt.KindInfer.run_queue/infer_kinds"
         rep.violation(detail, no_input=True)
     elif not ps["ok"] or tie_broken:
         rep.coverage["broken_obligation"] = ps if not ps["ok"] else {"disagreements": len(mism),
                                                                     "errors": errors[:2]}
 
     n_nontrivial = 0
+    n_with_calls = 0
+    n_multi_phase = 0
     seen = set()
     if not werrors:
-        for j, (prog, perms) in enumerate(jobs):
-            outs = res[seeds[0]][j]
+        for j, (prog, perms, glue) in enumerate(jobs):
+            outs = res[seeds[0]][j][0]
             # non-trivial: inference needed more than reading constants: some statement deferred, unified or failed
             key = json.dumps(prog, sort_keys=True)
             if key in seen:
                 continue
             seen.add(key)
-            if any(o[0] == "err" for o in outs) or any(
-                    e_size(s["expr"]) > 1 or s["loops"] for _, s in prog["stmts"]):
+            if prog_calls(prog):
+                n_with_calls += 1
+            if len(phases_of(prog)) > 1:
+                n_multi_phase += 1
+            if any(o[0] == "err" for o in outs) or any(s_size(s) > 1 for _, s in prog["stmts"]):
                 n_nontrivial += 1
     rep.coverage.update(
-        evaluations=n_pairs + n_triples + n_runs,
+        evaluations=n_pairs + n_triples + n_reg + n_runs + n_glue,
         distinct_nontrivial=n_nontrivial + n_pairs + n_triples,
-        rule="evaluations = unify pairs + triples (complete universe of 10 kinds) + SymbolKindFinder runs "
-             "(programs x presented orders x hash seeds); non-trivial program = distinct program with a "
-             "compound expression, a loop variable or an error outcome; every unify pair/triple is distinct",
+        rule="evaluations = unify pairs + triples (complete universe of 10 kinds) + get_result_kinds comparisons "
+             "+ SymbolKindFinder runs (programs x presented orders x hash seeds) + infer_kinds runs (programs x "
+             "phase orders x statement orders x hash seeds); non-trivial program = distinct program with a "
+             "compound expression, a call, a loop variable or an error outcome; every unify pair/triple is distinct",
         traces_validated_against_impl=n_eval,
         model_runs_compared=n_model_runs + n_pairs + n_triples,
         model_impl_disagreements=len(mism),
-        unify_pairs=n_pairs, unify_triples=n_triples,
-        programs=len(jobs), finder_runs=n_runs, hash_seeds=list(seeds),
+        unify_pairs=n_pairs, unify_triples=n_triples, registry_monotonicity_comparisons=n_reg,
+        registry_functions_not_monotone=sorted(regfails),
+        programs=len(jobs), programs_with_calls=n_with_calls, programs_with_several_phases=n_multi_phase,
+        finder_runs=n_runs, infer_kinds_runs=n_glue, hash_seeds=list(seeds),
         order_dependent_programs=n_fail_progs,
         order_dependence_classes=sorted(failing),
-        infer_kinds_entry_point_checked=ik_checked,
         input_distribution=dist,
         statements_histogram={str(k): sum(1 for p in progs if len(p["stmts"]) == k) for k in range(1, 7)},
-        samples=[{"program": jobs[i][0], "orders": len(jobs[i][1]),
-                  "outcome_first_order": (res[seeds[0]][i][0] if not werrors else None)}
+        samples=[{"program": jobs[i][0], "orders": len(jobs[i][1]), "infer_kinds_presentations": len(jobs[i][2]),
+                  "outcome_first_order": (res[seeds[0]][i][0][0] if not werrors else None)}
                  for i in (0, len(jobs) // 2, len(jobs) - 1)],
-        exhaustive=False, timing=timing, repo_tree=common.REPO, shape_switches=shape_switches(),
+        exhaustive=False, timing=timing, repo_tree=common.REPO, shape_switches=switches,
+        theorem_premises_false_on_this_tree=[sw for sw in sorted(PENDING) if switches.get(sw) is False],
     )
     rep.assumptions = [
-        "expressions are constants, variables, sums, products, quotients and comparisons; function calls, "
-        "powers, min/max, logical operators and subscript expressions are outside the model",
+        "expressions are constants, variables, sums, products, quotients, comparisons and calls (positional and "
+        "keyword arguments); powers, min/max, logical operators and subscript expressions are outside the model; "
+        "statements are Assign and AssignFunctionCall",
+        "registered functions are the built-ins of base_function_registry, ODE right-hand sides (register_ode_rhs) "
+        "and functions with fixed result kinds (register_function); get_result_kinds is modelled for check=False, "
+        "which SymbolKindFinder.make_kim hard-wires",
         "pymbolic.flatten is external: the model receives flatten(stmt.expression) computed by the real pymbolic",
         "statement inputs: no empty Product in a flattened right-hand side, forced kinds are not None; "
         "fuel exhaustion of the model's loops is excluded by hypothesis (see design/C14.md)",
+        "C14_order_independent / C14_infer_kinds_phase_order carry the premises finder_restarts_after_change = true "
+        "and builtins_require_arrays = true (repairs fixes/C14_worklist_restart, C14_matrix_builtins_need_arrays); "
+        "coverage.theorem_premises_false_on_this_tree lists those that do not hold on the checked tree, where "
+        "C14_refuted_gives_up_early / C14_refuted_scalar_matrix are the statements that apply",
     ]
     return rep.finish("proof")
 
@@ -881,12 +1372,30 @@ def replay(path):
         x = real_unify(a, a)
         print(json.dumps({"unify(a,a)": x}))
         return 0 if (x == ("ok", a) or (a == "Boolean" and x[0] != "ok")) else 1
+    if r.get("kind") == "registry":
+        w = r["witness"]
+        f = test_registry()[w["function"]]
+        arity = len(tuple(f.arg_names))
+
+        def rk(names):
+            args = [kind_to_real(k) for k in names] + [kind_to_real("Scalar:1")] * (arity - len(names))
+            return real_rk(f, args)
+        lo, hi = rk(w["smaller_arguments"]), rk(w["larger_arguments"])
+        bad = not_monotone(lo, hi)
+        show = lambda r: None if r is None else [kind_from_real(k) for k in r]   # noqa: E731
+        print(json.dumps({"function": w["function"], "smaller_arguments": w["smaller_arguments"],
+                          "result_smaller": show(lo), "larger_arguments": w["larger_arguments"],
+                          "result_larger": show(hi), "not_monotone": bad}))
+        return 1 if bad else 0
     prog = r.get("program") or (r.get("first_disagreeing_case") or {}).get("program")
     if prog is None:
         print("replay names a broken obligation, no input: %s" % r.get("broken"))
         return 1
-    ok, outs = oracle_inproc(prog)
+    ok, outs, gouts = oracle_inproc(prog)
     perms = perms_of(len(prog["stmts"]), random.Random(0), 120)
-    print(json.dumps({"program": prog, "orders": [{"order": p, "outcome": o} for p, o in zip(perms, outs)],
+    print(json.dumps({"program": prog,
+                      "SymbolKindFinder": [{"statement_order": p, "outcome": o} for p, o in zip(perms, outs)],
+                      "infer_kinds": [{"phases_dict_order": od, "statement_order": p, "outcome": o}
+                                      for (od, p), o in zip(glue_presentations(prog, perms), gouts)],
                       "order_independent": ok}, indent=1))
     return 0 if ok else 1
